@@ -40,6 +40,7 @@ RULE = ("Hypothesis-generated cases, five clauses. ellipsoid: (ellipsoid, latitu
         "|lat| > 89 or < 1 deg, user ellipsoid, a degenerate or constructed pair (anything but "
         "'general'), distance < 0.01 AU or > 100 AU; distinct = distinct case.")
 ASSUMPTIONS = [
+    "semidiameter correction of parallax_ecliptical: physical envelope 1.5 x/(1-x) sd plus the double-precision forward error 1e-14/cos(latitude) of the quotient of two quantities of size cos(latitude) (matters only within ~1e-6 deg of an ecliptic pole)",
     "identities of the ellipsoid clause are held to 1e-12 relative (height term 1e-14 absolute; "
     "linear_velocity = omega*rp to 4 ulp); Earth.rho, whose series is fixed to IAU76, is "
     "compared with sqrt(rho_cosphi^2 + rho_sinphi^2) to 2e-7 on the two built-in ellipsoids only",
@@ -480,7 +481,10 @@ def body_parallax_ecl(case):
         raise Violation("%s = (%r, %r, %r): displaced by %r deg, horizontal parallax is %r deg"
                         % (args, tl, tb, ts, disp, bound), site=site, kind="displacement",
                         disp=disp, bound=bound, ratio=disp / bound, topo_lat=tb)
-    tol_s = 1.5 * x / (1.0 - x) * sd + 1e-12
+    # + forward error of evaluating sin(sd) cos(b') / N in doubles next to an ecliptic pole, where
+    # both cos(b') and N are as small as cos(lat): about 1e-14 / cos(lat) relative (thorough-tier
+    # finding at lat = 89.999999, 1000 AU: 1.2e-7 deg on a 1 deg semidiameter is rounding, not parallax)
+    tol_s = 1.5 * x / (1.0 - x) * sd + 1e-12 + sd * 1e-14 / max(math.cos(math.radians(lat)), 1e-12)
     if not abs(ts - sd) <= tol_s:
         raise Violation("%s: topocentric semidiameter %r deg, geocentric %r deg: the correction "
                         "%r exceeds %r (it must vanish with 1/distance)"
